@@ -40,7 +40,11 @@ Modelled == {"Reset", "CtorDefault", "CtorFill", "CtorSub", "CtorSeq", "Overlay"
              "ReplaceSub", "ReplaceFill", "ReplaceIt", "ReplaceItFill", "Find"}
 ConcatModelled(a) == <<a.lk, a.rk>> \in {<<"self", "obj">>, <<"self", "ptr">>, <<"self", "ch">>, <<"selfm", "obj">>, <<"self", "objm">>}
 
-Dispatch(e) ==
+(* source kinds added to L1 in round 3 (mutable / reverse iterators into the object itself, iterator pairs of other  *)
+(* containers): not transcribed here; the cells are taken from the log and the model goes on from there            *)
+NewKinds == {"selfmit", "selfrit", "itp", "itpm", "its"}
+HasNewKind(e) == "sk" \in DOMAIN e.a /\ e.a.sk \in NewKinds
+DispatchOld(e) ==
     LET k == e.k
         a == e.a
         v == IF "sk" \in DOMAIN a /\ a.sk \in {"obj", "objm"} THEN AbsStr(Other(k)) ELSE a.src
@@ -87,6 +91,8 @@ Dispatch(e) ==
     \/ e.op = "Concat" /\ ~ConcatModelled(a) /\ Skip(e)
     \/ e.op \in {"StreamIn", "GetLine"} /\ Resync(e)
     \/ e.op \notin Modelled \cup {"Concat", "StreamIn", "GetLine"} /\ Skip(e)
+
+Dispatch(e) == IF HasNewKind(e) THEN Resync(e) ELSE DispatchOld(e)
 
 CellsAgree(e) == \A k \in {1, 2} :
     /\ \A i \in 1..(N + 1) : mem'[k].b[i] = UNK \/ mem'[k].b[i] = e.raw[k][i]
